@@ -128,7 +128,7 @@ def corpus_specs(pid, quick=False):
         if 'base_rstrip_then_append' in d:
             base = base.rstrip('\n') + d['base_rstrip_then_append']
         out.append({'name': d['name'], 'st': d['settings'], 'st2': d.get('settings2'), 'W': d['W'], 'mode': d.get('mode', 'pool'),
-                    'program': d.get('program', 'HIP_RA_X'), 'base': base})
+                    'program': d.get('program', 'HIP_RA_X'), 'base': base, 'default_output': d.get('default_output', False)})
     return out
 
 
@@ -146,7 +146,11 @@ class Run:
         return [t for t in self.tasks if t['status'] == 'ok']
 
 
-def run_job(ctx, name, settings, W=16, mode='pool', program='HIP_RA_X', base=None, timeout=900, settings2=None):
+TOY = Path(__file__).with_name('mc_toy_sim.py')
+TOY_BASE = 'Toy A, 0.5\nToy B, 2.0\n'
+
+
+def run_job(ctx, name, settings, W=16, mode='pool', program='HIP_RA_X', base=None, timeout=900, settings2=None, default_output=False):
     d = ctx.scratch / f'mc_{name}'
     d.mkdir()
     (d / 'base.txt').write_text(base if base is not None else hiprax_base())
@@ -156,6 +160,10 @@ def run_job(ctx, name, settings, W=16, mode='pool', program='HIP_RA_X', base=Non
         Path(parse_settings_raw(settings_run)[3]).parent.mkdir(parents=True, exist_ok=True)
     job = {'program': program, 'base': str(d / 'base.txt'), 'settings': str(d / 'settings.txt'),
            'result': str(d / 'result.txt'), 'W': W, 'mode': mode}
+    if program == 'TOY':
+        job['code_file'] = str(TOY)
+    if default_output:
+        job['default_output'] = True
     first = None
     if settings2 is not None:       # mode 'api2': `settings` is the first call, `settings2` the second - the run that is analysed
         (d / 'settings2.txt').write_text(settings2)
@@ -172,10 +180,12 @@ def run_job(ctx, name, settings, W=16, mode='pool', program='HIP_RA_X', base=Non
     js = res.with_suffix('.json')
     stray = [str(q.relative_to(d)) for q in d.rglob('*.json')      # summaries written anywhere else in the job directory
              if q not in (js, d / 'job.json', d / 'out.json') and q.relative_to(d).parts[0] not in ('tmp', 'log')]
-    return Run({'name': name, 'dir': d, 'settings': settings, 'settings_run': settings_run, 'W': W, 'mode': mode, 'program': program,
+    api = o.get('api') or []
+    rt = api[-1]['result_text'] if default_output and api else (res.read_text() if res.exists() else None)
+    jt = api[-1]['json_text'] if default_output and api else (js.read_text() if js.exists() else None)
+    return Run({'name': name, 'dir': d, 'default_output': default_output, 'settings': settings, 'settings_run': settings_run, 'W': W, 'mode': mode, 'program': program,
                 'base': base if base is not None else hiprax_base(), 'main_error': o['main_error'], 'tasks': o['tasks'], 'api': o.get('api') or [], 'settings_first': first, 'stray_json': stray, 'result_path': str(res),
-                'result_text': res.read_text() if res.exists() else None,
-                'json_text': js.read_text() if js.exists() else None})
+                'result_text': rt, 'json_text': jt})
 
 
 def parse_result(text):
@@ -249,6 +259,9 @@ def _resim(args):
     path = Path(tmp, f'resim_{os.getpid()}_{k}.txt')
     path.write_text(base + ''.join(f'{n}, {v}\n' for n, v in entries))
     try:
+        if program == 'TOY':
+            from lib.mc_toy_sim import simulate
+            return simulate(path.read_text())
         if program == 'GEOPHIRES':
             from geophires_x_client import GeophiresInputParameters, GeophiresXClient
             out = GeophiresXClient().get_geophires_result(GeophiresInputParameters(from_file_path=path)).output_file_path
@@ -281,7 +294,7 @@ def run_jobs(ctx, specs, parallel=3):
     from concurrent.futures import ThreadPoolExecutor
     with ThreadPoolExecutor(max_workers=parallel) as ex:
         return list(ex.map(lambda s: run_job(ctx, s['name'], s['st'], W=s['W'], mode=s.get('mode', 'pool'), program=s.get('program', 'HIP_RA_X'),
-                                             base=s.get('base'), settings2=s.get('st2')), specs))
+                                             base=s.get('base'), settings2=s.get('st2'), default_output=s.get('default_output', False)), specs))
 
 
 def report_tokens(report, outputs):
